@@ -108,3 +108,177 @@ impl Kernel {
         self.notif_rx.close();
     }
 }
+
+// ---------------------------------------------------------------------------------------------------------------
+// The whole notification protocol of one endpoint: the real `NotificationProtocol::next_event()` loop, the real
+// `NotificationHandle` for the user, a transport service fed by the harness, and an executor that collects the
+// per-stream tasks instead of spawning them.
+
+use super::{config::Config, NotificationProtocol};
+use crate::{
+    error::SubstreamError,
+    executor::Executor,
+    protocol::{
+        connection::{ConnectionHandle, Permit},
+        protocol_set::InnerTransportEvent,
+        Direction, ProtocolCommand, SubstreamKeepAlive, TransportService,
+    },
+    transport::{manager::TransportManager, Endpoint},
+    types::{protocol::ProtocolName, ConnectionId, SubstreamId},
+};
+use parking_lot::Mutex;
+use std::{future::Future, pin::Pin, sync::Arc, time::Duration};
+use tokio::sync::mpsc::Sender;
+
+pub use super::handle::NotificationHandle;
+
+struct CollectingExecutor {
+    tasks: Arc<Mutex<Vec<BoxFuture<'static, ()>>>>,
+}
+
+impl Executor for CollectingExecutor {
+    fn run(&self, future: Pin<Box<dyn Future<Output = ()> + Send>>) {
+        self.tasks.lock().push(future);
+    }
+
+    fn run_with_name(&self, _: &'static str, future: Pin<Box<dyn Future<Output = ()> + Send>>) {
+        self.tasks.lock().push(future);
+    }
+}
+
+/// One endpoint's notification protocol with everything around it in the harness' hands.
+pub struct ProtocolKernel {
+    protocol: NotificationProtocol,
+    /// where the transport puts events for this protocol
+    transport_tx: Sender<InnerTransportEvent>,
+    /// per connection: id, a handle (to mint permits) and the command channel its task would serve
+    connections: Vec<(ConnectionId, ConnectionHandle, Receiver<ProtocolCommand>)>,
+    tasks: Arc<Mutex<Vec<BoxFuture<'static, ()>>>>,
+    protocol_name: ProtocolName,
+}
+
+/// What one poll of `NotificationProtocol::next_event()` did.
+#[derive(Debug, Clone, Copy, PartialEq, Eq)]
+pub enum Polled {
+    Pending,
+    Handled,
+    Exited,
+}
+
+pub fn new_protocol_kernel(manager: &mut TransportManager, auto_accept: bool, handshake: Vec<u8>) -> (ProtocolKernel, NotificationHandle) {
+    let protocol_name = ProtocolName::from("/verif/notif/1");
+    let (config, handle) = Config::new(protocol_name.clone(), 16, handshake, Vec::new(), auto_accept, 2, 2, false);
+    let (service, transport_tx) = TransportService::new(
+        PeerId::random(),
+        protocol_name.clone(),
+        Vec::new(),
+        Default::default(),
+        manager.transport_manager_handle(),
+        Duration::from_secs(5),
+        SubstreamKeepAlive::Yes,
+    );
+    let tasks = Arc::new(Mutex::new(Vec::new()));
+    let executor = Arc::new(CollectingExecutor { tasks: Arc::clone(&tasks) });
+    let protocol = NotificationProtocol::new(service, config, executor);
+    (ProtocolKernel { protocol, transport_tx, connections: Vec::new(), tasks, protocol_name }, handle)
+}
+
+impl ProtocolKernel {
+    /// Poll the real event loop body once.
+    pub fn poll_protocol(&mut self, cx: &mut Context<'_>) -> Polled {
+        let mut future = Box::pin(self.protocol.next_event());
+        match future.as_mut().poll(cx) {
+            Poll::Pending => Polled::Pending,
+            Poll::Ready(false) => Polled::Handled,
+            Poll::Ready(true) => Polled::Exited,
+        }
+    }
+
+    /// The transport announces a connection.
+    pub fn connection_established(&mut self, peer: PeerId, connection_id: ConnectionId) -> bool {
+        let (tx, rx) = channel(16);
+        let handle = ConnectionHandle::new(connection_id, tx);
+        self.connections.push((connection_id, handle.clone(), rx));
+        self.transport_tx
+            .try_send(InnerTransportEvent::ConnectionEstablished {
+                peer,
+                connection: connection_id,
+                endpoint: Endpoint::listener(multiaddr::Multiaddr::empty(), connection_id),
+                sender: handle,
+            })
+            .is_ok()
+    }
+
+    /// The transport reports the connection closed (its task and unserved commands are gone).
+    pub fn connection_closed(&mut self, peer: PeerId, connection_id: ConnectionId) -> bool {
+        self.connections.retain(|(id, _, _)| *id != connection_id);
+        self.transport_tx.try_send(InnerTransportEvent::ConnectionClosed { peer, connection: connection_id }).is_ok()
+    }
+
+    /// The oldest substream-open request of the protocol, if any: (connection, substream id).
+    pub fn next_open_request(&mut self) -> Option<(ConnectionId, SubstreamId)> {
+        for (id, _, rx) in self.connections.iter_mut() {
+            if let Ok(ProtocolCommand::OpenSubstream { substream_id, .. }) = rx.try_recv() {
+                return Some((*id, substream_id));
+            }
+        }
+        None
+    }
+
+    fn permit(&self, connection_id: ConnectionId) -> Option<Permit> {
+        self.connections.iter().find(|(id, _, _)| *id == connection_id).and_then(|(_, handle, _)| handle.try_get_permit())
+    }
+
+    /// The requested outbound substream was negotiated.
+    pub fn outbound_substream_opened(&mut self, peer: PeerId, connection_id: ConnectionId, substream_id: SubstreamId, substream: Substream) -> bool {
+        let Some(opening_permit) = self.permit(connection_id) else { return false };
+        self.transport_tx
+            .try_send(InnerTransportEvent::SubstreamOpened {
+                peer,
+                protocol: self.protocol_name.clone(),
+                fallback: None,
+                direction: Direction::Outbound(substream_id),
+                connection_id,
+                substream,
+                opening_permit,
+            })
+            .is_ok()
+    }
+
+    /// The requested outbound substream could not be opened.
+    pub fn outbound_substream_failed(&mut self, substream_id: SubstreamId) -> bool {
+        self.transport_tx
+            .try_send(InnerTransportEvent::SubstreamOpenFailure { substream: substream_id, error: SubstreamError::ConnectionClosed })
+            .is_ok()
+    }
+
+    /// The remote opened a substream of this protocol.
+    pub fn inbound_substream_opened(&mut self, peer: PeerId, connection_id: ConnectionId, substream: Substream) -> bool {
+        let Some(opening_permit) = self.permit(connection_id) else { return false };
+        self.transport_tx
+            .try_send(InnerTransportEvent::SubstreamOpened {
+                peer,
+                protocol: self.protocol_name.clone(),
+                fallback: None,
+                direction: Direction::Inbound,
+                connection_id,
+                substream,
+                opening_permit,
+            })
+            .is_ok()
+    }
+
+    /// Poll every per-stream task the protocol has spawned once; finished tasks are dropped. Returns how many finished.
+    pub fn poll_tasks(&mut self, cx: &mut Context<'_>) -> usize {
+        let mut tasks = std::mem::take(&mut *self.tasks.lock());
+        let before = tasks.len();
+        tasks.retain_mut(|task| task.as_mut().poll(cx).is_pending());
+        let finished = before - tasks.len();
+        self.tasks.lock().extend(tasks);
+        finished
+    }
+
+    pub fn running_tasks(&self) -> usize {
+        self.tasks.lock().len()
+    }
+}
